@@ -377,6 +377,7 @@ func (r *Run) Finish() int {
 	// stages of the same check that ran in another binary (overlay harness) hand their evidence over
 	if ms := os.Getenv("VERIF_MERGE_EVIDENCE"); ms != "" {
 		stages := map[string]interface{}{}
+		var stageOutcomes int64
 		for _, p := range strings.Split(ms, ",") {
 			b, err := os.ReadFile(p)
 			if err != nil {
@@ -397,6 +398,9 @@ func (r *Run) Finish() int {
 			states += num("states")
 			trans += num("transitions")
 			distinct += num("distinct_nontrivial")
+			if n := num("distinct_outcomes"); n > stageOutcomes {
+				stageOutcomes = n
+			}
 			if ex, ok := sc["exhaustive"].(bool); ok && !ex {
 				exhaustive = false
 			}
@@ -413,6 +417,11 @@ func (r *Run) Finish() int {
 		cov["traces_validated_against_impl"] = evals
 		cov["exhaustive"] = exhaustive
 		cov["stages"] = stages
+		if o, _ := cov["distinct_outcomes"].(int); stageOutcomes > int64(o) {
+			// outcome sets of separate processes cannot be united; the largest stage is a lower bound
+			cov["distinct_outcomes"] = stageOutcomes
+			cov["distinct_outcomes_note"] = "largest single stage (lower bound of the union)"
+		}
 	}
 	seed := 0
 	if s, err := strconv.Atoi(os.Getenv("VERIF_SEED")); err == nil {
